@@ -256,6 +256,13 @@ fn project_shapes() -> Vec<(String, Files, bool)> {
     add("only-comment", &[(MAIN, "// nothing".to_string())]);
     add("main-without-start", &[(MAIN, format!("{}x :: 1\n", hdr))]);
     add("start-in-import-only", &[(MAIN, "use a\n".to_string()), ("/p/a.sy", format!("{}{}", hdr, start))]);
+    add("start-only-as-import-alias", &[(MAIN, format!("from a use run as start\n{}", hdr)), ("/p/a.sy", format!("{}run :: fn do\n    print(1)\nend\n", hdr))]);
+    add("start-only-as-from-import", &[(MAIN, format!("from a use start\n{}", hdr)), ("/p/a.sy", format!("{}{}", hdr, start))]);
+    add("start-is-a-namespace", &[(MAIN, format!("use start\n{}", hdr)), ("/p/start.sy", "x :: 1\n".to_string())]);
+    add("start-is-a-namespace-alias", &[(MAIN, format!("use a as start\n{}", hdr)), ("/p/a.sy", "x :: 1\n".to_string())]);
+    add("start-is-an-alias-of-a-value", &[(MAIN, format!("from a use x as start\n{}", hdr)), ("/p/a.sy", "x :: 1\n".to_string())]);
+    add("start-is-a-blob", &[(MAIN, format!("{}Start :: blob {{ a: int }}\nstart :: Start {{ a: 1 }}\n", hdr))]);
+    add("start-is-external", &[(MAIN, format!("{}start: fn -> void : external\n", hdr))]);
     add("imported-file-empty", &[(MAIN, format!("use a\n{}{}", hdr, start)), ("/p/a.sy", String::new())]);
     add("imported-file-syntax-error", &[(MAIN, format!("use a\n{}{}", hdr, start)), ("/p/a.sy", "x := := 1\n".to_string())]);
     add("imported-file-conflict-marker", &[(MAIN, format!("use a\n{}{}", hdr, start)), ("/p/a.sy", "<<<<<<< HEAD\nx :: 1\n=======\n>>>>>>> other\n".to_string())]);
